@@ -28,7 +28,7 @@ theorem absLtZ_iff (x c r : K) : Rsa.Gen.C19.absLtZ x c r = true ↔ |x - c| < r
   simp only [Rsa.Gen.C19.absLtZ, decide_eq_true_eq, abs_eq_max_neg]
 
 theorem distLt_iff (k : Int) (r : K) : distLt k r = true ↔ 0 < r ∧ (k : K) < r * r := by
-  simp [distLt]
+  simp [distLt, Rsa.Gen.C19.radiusTest]
 
 theorem mem_axisPre {test : K → K → K → Bool} (htest : ∀ x c r, test x c r = true ↔ |x - c| < r)
     {n : Nat} {c : Int} {r : K} {x : Nat} :
